@@ -85,6 +85,17 @@ def run(ctx):
     from . import markers
     markers.corpus_modules(ctx, "c19", "comparison spellings of repaired findings")
 
+    # model M14 (short-circuit value expressions) against the real tool, both directions
+    from . import shortcircuit_suite as SC
+    sc = SC.run(ctx, 150 if ctx.tier == "quick" else 1500)
+    ctx.obligation("correspondence (two-directional): the parameters with a reported dereference in %d random `&&` / `||` value expressions (nil checks, opaque operands, dereferences; returned, assigned, passed) == model M14 evaluated in Coq; %d of them in the class of theorem C19_short_circuit_attribution" % (sc["n"], sc["pure"]), sc["n"] > 0 and not sc["bad"] and not sc["error"])
+    if sc["error"]:
+        ctx.violation("sc-suite", sc["error"], found_input=False)
+    for b in sc["bad"][:3]:
+        ctx.violation("shortcircuit", "the real tool and model M14 (the transcription of AddComputation's short-circuit case) disagree on a value expression -- theorem C19_short_circuit_attribution no longer speaks about the code:\n%s\nreplay: put the expression in `func F(p0, p1 *T, c0, c1 bool) bool { return (...) }` with a caller passing nil, run nilaway -group-error-messages=false\n" % b)
+    ctx.coverage["evaluations"] += sc["n"]
+    ctx.coverage["distinct_nontrivial"] += sc["n"]
+
     # known finding F104: the conclusion of a check nested in the left operand of a short-circuit VALUE expression lands
     # on the right operand whatever the outcome
     import os
